@@ -187,7 +187,7 @@ class P:
             md = re.search(r"DOWN=([\d,]+)", impl)
             real = [int(x) for x in md.group(1).split(",")] if md else []
             extra_down = max(0, sum(real) - sum(f[2] for f in faults))
-            bound = sum(4 + retry + int(f[2] / max(gap, 1)) + 2 for f in faults) + int(extra_down / max(gap, 1))
+            bound = sum(8 + 2 * retry + int(f[2] / max(gap, 1)) + 2 for f in faults) + int(extra_down / max(gap, 1))
             if lost > bound:
                 return "%d messages lost around %d sink failure(s) (bound %d; retry-max %d)" % (lost, len(faults), bound, retry)
             if last != len(msgs) - 1:
